@@ -1,6 +1,7 @@
 # C06 — rwlock / qrwlock: writers exclusive, readers shared, failed lock is a no-op.
-# Engines: E2 (`P` cases: reader/writer programs on the real scheduler under the virtual clock) and
-# E3 (`Q` cases: qrwlock's state word + spinlock, atomic-step schedules between OS threads).
+# Engines: E2 (`P` cases: reader/writer programs on the real scheduler under the virtual clock — this is the tie of the
+# BLOCKING paths rwlock::lock/unlock and qrwlock::lock(mode, timeout)/unlock: do_lock slow path, cv_unique/cv_shared, try_wake) and
+# E3 (`Q` cases: qrwlock's state word + spinlock, atomic-step schedules between OS threads; try_lock/unlock only).
 # Model: coq/C06 (fine-grained step functions; C06_E2.v runs them cooperatively over coq/Sched).
 import sys, stat
 from vlib import *
@@ -20,7 +21,7 @@ def u64(x):
 
 # ------------------------------------------------------------------ generator -----
 def gen_prog(rng, kind=None, big=False):
-    kind = kind or rng.choice(['rw', 'rw', 'q'])
+    kind = kind or rng.choice(['rw', 'q'])
     nobj = 1 if rng.random() < .8 else 2
     decls = [('rwlock' if kind == 'rw' else 'qrwlock', []) for _ in range(nobj)]
     if rng.random() < .05:
@@ -59,7 +60,8 @@ def gen_prog(rng, kind=None, big=False):
         if r < .35: return [('usleep', [rng.choice([unit // 2, unit, unit, 2 * unit])])]
         if r < .5: return [('yield', [])]
         if r < .85: return [('interrupt', [rng.randrange(n), rng.choice(errs)])]
-        return [(pre + 'state', [rng.randrange(len(decls))])]
+        if r < .93: return [(pre + 'state', [rng.randrange(len(decls))])]
+        return [(pre + 'waiters', [rng.randrange(len(decls))])]
 
     threads = []
     for k in range(n):
@@ -86,6 +88,167 @@ def gen_prog(rng, kind=None, big=False):
     return e2lib.fmt_case(decls, threads)
 
 
+def gen_scn(rng, kind=None):
+    """STRUCTURED programs for the BLOCKING path (do_lock slow path / cv_unique / cv_shared / try_wake of qrwlock, cvar of
+    rwlock): a conductor T0 takes the lock and goes through 2-4 consecutive sections whose unlock is followed by the next
+    lock WITHOUT a yield (downgrade W->R, upgrade R->W, re-take), by a yield, or by a short sleep; the other threads are
+    waiters (readers park on cv_shared, writers on cv_unique) whose timeouts are placed relative to the conductor's
+    timeline: inside a later hold (the waiter is woken, loses against the conductor's re-take, waits again and THEN times
+    out), exactly on an unlock instant, or never; interrupts are aimed at parked waiters from inside the holds; probes of
+    the state word and of the cv queues after each unlock.  Seeded change C06_1 (last reader leaving wakes only
+    cv_unique) needs exactly: W held; a timed writer and a reader parked; downgrade without yield; the writer gives up
+    while the lock is read-held; last reader unlocks."""
+    kind = kind or ('q' if rng.random() < .75 else 'rw')
+    pre = 'q_' if kind == 'q' else 'rw_'
+    decls = [('qrwlock' if kind == 'q' else 'rwlock', [])]
+    unit = rng.choice([100, 100, 40, 1000])
+    nsec = rng.randint(2, 4)
+    nw = rng.randint(2, 5)
+    n = nw + 1
+    errs = [4, 4, 11, 125]
+    # conductor: modes of its sections; first one mostly W (so that readers park too)
+    modes = [WLOCK if rng.random() < .8 else RLOCK]
+    for _ in range(nsec - 1):
+        modes.append(RLOCK if rng.random() < .6 else WLOCK)
+    holds = [unit * rng.choice([1, 2, 3, 4]) for _ in range(nsec)]
+    gaps = [rng.choice(['none', 'none', 'none', 'yield', 'sleep']) for _ in range(nsec - 1)]
+    # focus (1 in 3): write hold, DOWNGRADE without a yield, then only read sections; waiter 1 is a writer that gives up
+    # during the read hold (timeout inside it, or no timeout + an interrupt from the conductor), waiter 2 a patient reader
+    focus = rng.random() < .33
+    if focus:
+        modes = [WLOCK] + [RLOCK] * (nsec - 1)
+        gaps[0] = 'none'
+    # timeline of the conductor (virtual time relative to its first lock; a gap 'sleep' lasts unit/2)
+    t = 0
+    unlock_at = []
+    for j in range(nsec):
+        t += holds[j]
+        unlock_at.append(t)
+        if j < nsec - 1 and gaps[j] == 'sleep': t += unit // 2
+    tail = unit * rng.choice([1, 2, 4])
+
+    def pick_tmo(start):
+        """timeout of a waiter that starts waiting at relative time `start`"""
+        r = rng.random()
+        if r < .3: return -1
+        if r < .75 and len(unlock_at) > 1:
+            # deadline strictly inside a LATER hold of the conductor (after at least one of its unlocks)
+            j = rng.randrange(1, len(unlock_at))
+            lo, hi = unlock_at[j - 1], unlock_at[j]
+            d = rng.choice([lo + 1, (lo + hi) // 2, hi - 1, lo + unit // 2])
+            return max(1, d - start)
+        if r < .9:
+            return max(0, rng.choice(unlock_at) - start + rng.choice([0, 0, -1, 1]))    # on an unlock instant
+        return rng.choice([0, unit // 2, unit, 10 * unit])
+
+    threads = [[] for _ in range(n)]
+    waiter_mode = {}
+    for k in range(1, n):
+        ops = []
+        start = 0
+        if rng.random() < .35:
+            start = rng.choice([unit // 4, unit // 2, unlock_at[0] + 1, unlock_at[0] + unit // 2])
+            ops.append(('usleep', [start]))
+        m = WLOCK if rng.random() < (.15 if focus else .45) else RLOCK
+        if focus and k <= 2:
+            m = WLOCK if k == 1 else RLOCK
+            lo, hi = unlock_at[0], unlock_at[1]
+            tmo = rng.choice([lo + 1, (lo + hi) // 2, hi - 1, hi, -1]) if k == 1 else rng.choice([-1, -1, 20 * unit, hi - 1])
+            if tmo > 0: tmo = max(1, tmo - start)
+            waiter_mode[k] = m
+            ops.append((pre + 'lock', [0, m, tmo]))
+        elif kind == 'q' and rng.random() < .12:
+            waiter_mode[k] = m
+            ops.append((pre + 'try', [0, m]))
+        else:
+            waiter_mode[k] = m
+            ops.append((pre + 'lock', [0, m, pick_tmo(start)]))
+        h = rng.random()
+        if h < .25: ops.append((pre + 'state', [0]))
+        if h < .6: ops.append(('usleep', [unit * rng.choice([1, 2])]))
+        elif h < .75: ops.append(('yield', []))
+        ops.append((pre + 'unlock', [0]))
+        if rng.random() < .25:      # a second section
+            m2 = WLOCK if rng.random() < .4 else RLOCK
+            ops += [(pre + 'lock', [0, m2, rng.choice([-1, unit, 3 * unit])]), ('usleep', [unit]), (pre + 'unlock', [0])]
+        threads[k] = ops
+    # make sure both condition variables are populated in most programs
+    if rng.random() < .8 and len(set(waiter_mode.values())) == 1:
+        k = rng.randrange(1, n)
+        flip = RLOCK if waiter_mode[k] == WLOCK else WLOCK
+        for idx, o in enumerate(threads[k]):
+            if o[0] in (pre + 'lock', pre + 'try'):
+                threads[k][idx] = (o[0], [o[1][0], flip] + o[1][2:])
+                break
+
+    def hold_ops(j):
+        h = holds[j]
+        r = rng.random()
+        if focus and j == 1 and r < .5:
+            a = rng.choice([unit // 2, h // 2, h - 1])
+            return [('usleep', [a]), ('interrupt', [1, rng.choice(errs)]), ('usleep', [h - a])]
+        if r < .5 or n < 2: return [('usleep', [h])]
+        if r < .75:          # interrupt a waiter from inside the hold
+            a = rng.choice([unit // 2, h // 2, h - 1]) if h > 1 else 0
+            return [('usleep', [a]), ('interrupt', [rng.randrange(1, n), rng.choice(errs)]), ('usleep', [h - a])]
+        if r < .9:           # probe the queues in the middle
+            a = h // 2
+            return [('usleep', [a]), (pre + 'waiters', [0]), (pre + 'state', [0]), ('usleep', [h - a])]
+        return [('usleep', [h]), ('yield', [])]
+
+    c = [('create', [k, 0]) for k in range(1, n)]
+    rng.shuffle(c)
+    c.append((pre + 'lock', [0, modes[0], -1]))
+    for j in range(nsec):
+        c += hold_ops(j)
+        c.append((pre + 'unlock', [0]))
+        if rng.random() < .3: c.append((pre + 'waiters', [0]))
+        if j < nsec - 1:
+            if gaps[j] == 'yield': c.append(('yield', []))
+            elif gaps[j] == 'sleep': c.append(('usleep', [unit // 2]))
+            r = rng.random()
+            if kind == 'q' and r < .2: c.append((pre + 'try', [0, modes[j + 1]]))
+            elif r < .85: c.append((pre + 'lock', [0, modes[j + 1], -1]))
+            else: c.append((pre + 'lock', [0, modes[j + 1], rng.choice([unit, 2 * unit, holds[j + 1]])]))
+    c += [('usleep', [tail]), (pre + 'state', [0]), (pre + 'waiters', [0])]
+    threads[0] = c
+    return e2lib.fmt_case(decls, threads)
+
+
+def gen_crowd(rng, kind=None):
+    """several waiters on BOTH condition variables behind one writer; everybody holds briefly and leaves; try_lock mixes"""
+    kind = kind or ('q' if rng.random() < .75 else 'rw')
+    pre = 'q_' if kind == 'q' else 'rw_'
+    decls = [('qrwlock' if kind == 'q' else 'rwlock', [])]
+    unit = rng.choice([100, 50])
+    n = rng.randint(4, 7)
+    threads = [[] for _ in range(n)]
+    for k in range(1, n):
+        m = WLOCK if rng.random() < .35 else RLOCK
+        ops = []
+        if rng.random() < .3: ops.append(('usleep', [rng.choice([unit // 2, unit, 2 * unit])]))
+        tmo = rng.choice([-1, -1, -1, unit, 2 * unit, 3 * unit, 2 * unit + 1, 5 * unit])
+        if kind == 'q' and rng.random() < .15: ops.append((pre + 'try', [0, m]))
+        else: ops.append((pre + 'lock', [0, m, tmo]))
+        r = rng.random()
+        if r < .5: ops.append(('usleep', [unit * rng.choice([1, 2])]))
+        elif r < .7: ops.append(('yield', []))
+        elif r < .8: ops.append((pre + 'waiters', [0]))
+        ops.append((pre + 'unlock', [0]))
+        if rng.random() < .3:
+            if kind == 'q' and rng.random() < .5: ops.append((pre + 'try', [0, rng.choice([RLOCK, WLOCK])]))
+            else: ops.append((pre + 'lock', [0, rng.choice([RLOCK, WLOCK]), -1]))
+            ops.append((pre + 'unlock', [0]))
+        threads[k] = ops
+    c = [('create', [k, 0]) for k in range(1, n)]
+    rng.shuffle(c)
+    c += [(pre + 'lock', [0, WLOCK, -1]), ('usleep', [2 * unit]), (pre + 'waiters', [0]), (pre + 'unlock', [0])]
+    if rng.random() < .5: c += [(pre + 'lock', [0, rng.choice([RLOCK, WLOCK]), -1]), ('usleep', [unit]), (pre + 'unlock', [0])]
+    c += [('usleep', [20 * unit]), (pre + 'state', [0]), (pre + 'waiters', [0])]
+    threads[0] = c
+    return e2lib.fmt_case(decls, threads)
+
+
 # scenario programs (also the single-vCPU witnesses of the Coq development)
 CORPUS = [
     # (a) W3: reader queues behind a waiting writer that times out; a later reader queues too; R1's unlock admits both
@@ -100,6 +263,17 @@ CORPUS = [
     # interrupt of a waiter, then admission of the next
     'P rwlock | create 1 0;create 2 0;rw_lock 0 8192 -1;usleep 50;interrupt 1 4;usleep 50;rw_unlock 0 | rw_lock 0 8192 -1;rw_unlock 0 | rw_lock 0 4096 -1;rw_state 0;rw_unlock 0',
     'P qrwlock | create 1 0;create 2 0;q_lock 0 8192 -1;usleep 50;interrupt 1 4;usleep 50;q_unlock 0 | q_lock 0 8192 -1;q_unlock 0 | q_lock 0 4096 -1;q_state 0;q_unlock 0',
+    # seeded change C06_1 (notes/C06.md, "blocking path"): W0 holds W; W1 waits lock(W,200), R1 (and R2) wait lock(R); W0 downgrades
+    # without a yield (unlock wakes only W1, which finds the lock read-held and waits again); W1 times out / is interrupted
+    # while the lock is read-held; the last reader's unlock must wake the parked readers (try_wake, not only cv_unique)
+    'P qrwlock | create 1 0;create 2 0;q_lock 0 8192 -1;usleep 20;q_unlock 0;q_lock 0 4096 -1;q_waiters 0;usleep 400;q_waiters 0;q_unlock 0;q_waiters 0;usleep 300;q_state 0 | q_lock 0 8192 200;q_unlock 0 | q_lock 0 4096 -1;q_state 0;q_unlock 0',
+    'P qrwlock | create 1 0;create 2 0;create 3 0;q_lock 0 8192 -1;usleep 20;q_unlock 0;q_lock 0 4096 -1;usleep 100;interrupt 1 4;usleep 300;q_unlock 0;q_waiters 0;usleep 300;q_state 0 | q_lock 0 8192 -1;q_unlock 0 | q_lock 0 4096 -1;q_state 0;usleep 50;q_unlock 0 | q_lock 0 4096 1000;q_state 0;q_unlock 0',
+    # the same without the writer's failed call: the readers are admitted at the downgrade
+    'P qrwlock | create 2 0;q_lock 0 8192 -1;usleep 20;q_unlock 0;q_lock 0 4096 -1;q_waiters 0;usleep 400;q_unlock 0;usleep 300;q_state 0 | - | q_lock 0 4096 -1;q_state 0;q_unlock 0',
+    # the rwlock counterpart (one FIFO queue: the downgrade itself queues behind W1)
+    'P rwlock | create 1 0;create 2 0;rw_lock 0 8192 -1;usleep 20;rw_unlock 0;rw_lock 0 4096 -1;rw_waiters 0;usleep 400;rw_unlock 0;rw_waiters 0;usleep 300;rw_state 0 | rw_lock 0 8192 200;rw_unlock 0 | rw_lock 0 4096 -1;rw_state 0;rw_unlock 0',
+    # writer re-take without yield: the notified writer loses, waits again, is admitted by the second unlock; readers after it
+    'P qrwlock | create 1 0;create 2 0;create 3 0;q_lock 0 8192 -1;usleep 20;q_unlock 0;q_lock 0 8192 -1;usleep 100;q_unlock 0;q_waiters 0;usleep 500;q_waiters 0 | q_lock 0 8192 -1;usleep 30;q_unlock 0 | q_lock 0 4096 -1;usleep 30;q_unlock 0 | q_lock 0 4096 50;q_unlock 0',
     # bad mode
     'P rwlock;qrwlock | rw_lock 0 0 -1;rw_lock 0 12288 -1;rw_state 0;q_lock 1 0 -1;q_state 1;q_unlock 1;q_unlock 1;rw_unlock 0;q_lock 0 4096 -1;rw_lock 1 4096 -1',
 ]
@@ -221,6 +395,10 @@ def analyse(case, out):
     for j, (k, pc, ret, err, now) in enumerate(res['tr']):
         done[(k, pc)] = j
     blocked = dict(res['blocked'])
+    created = {}                                           # tid -> index of the event of its `create`
+    for j, (k, pc, ret, err, now) in enumerate(res['tr']):
+        o = th[k][pc] if k < len(th) and pc < len(th[k]) else None
+        if o and o[0] == 'create' and o[1] and ret >= 0 and o[1][0] not in created: created[o[1][0]] = j
 
     def opof(k, pc):
         return th[k][pc] if k < len(th) and pc < len(th[k]) else None
@@ -248,7 +426,12 @@ def analyse(case, out):
             pcs = [pc for pc in range(len(th[k])) if done.get((k, pc), 1 << 60) > j]
             if not pcs: continue
             pc = pcs[0]
-            if pc == 0 or done.get((k, pc - 1), 1 << 60) >= j: continue    # not certainly started before event j
+            if pc == 0:
+                # the first op of a created thread has certainly started (and run up to its blocking point) once virtual
+                # time has advanced past its creation: time only passes while every thread is asleep
+                cj = created.get(k)
+                if k != 0 and (cj is None or cj >= j or res['tr'][cj][4] >= res['tr'][j][4]): continue
+            elif done.get((k, pc - 1), 1 << 60) >= j: continue              # not certainly started before event j
             o = opof(k, pc)
             lo = lock_obj(o)
             if lo and lo[0] == obj and lo[1] and o[0] != 'q_try':
@@ -335,7 +518,7 @@ def analyse(case, out):
                     allfail = all(((kk, pp) in done and res['tr'][done[(kk, pp)]][4] == now and res['tr'][done[(kk, pp)]][2] != 0) for kk, pp, mm in ws)
                     if not succ and not allfail:
                         fails.append(('viol', 'lock %d became free at t=%d with waiters %s but nobody was admitted at that instant' % (obj, now, ws)))
-                    elif succ and name == 'rw_unlock':
+                    elif succ:
                         first = succ[0][1]
                         fm = lock_obj(opof(first[0], first[1]))[1]
                         # a writer that acquires at the same instant (a fresh locker barging in before the notified
@@ -346,6 +529,22 @@ def analyse(case, out):
                                 ev = res['tr'][done[(kk, pp)]] if (kk, pp) in done else None
                                 if ev is None or ev[4] != now:
                                     fails.append(('viol', 'lock %d became free at t=%d, only readers wait %s, but reader T%d was not admitted at that instant' % (obj, now, ws, kk)))
+        elif name in ('rw_waiters', 'q_waiters') and a and 0 <= a[0] < len(decls) and kinds[a[0]] == ('rwlock' if name == 'rw_waiters' else 'qrwlock'):
+            # nobody can be parked on a condition variable of the lock without being inside a blocking lock() of that mode
+            obj = a[0]
+            infl = {'R': 0, 'W': 0}
+            for kk in range(len(th)):
+                if kk == k: continue
+                pcs = [pp for pp in range(len(th[kk])) if done.get((kk, pp), 1 << 60) > j]
+                if not pcs: continue
+                oo = opof(kk, pcs[0]); lo2 = lock_obj(oo)
+                if lo2 and lo2[0] == obj and lo2[1] and oo[0] != 'q_try': infl[lo2[1]] += 1
+            if name == 'q_waiters':
+                nu, ns = ret // 1000, ret % 1000
+                if ret < 0 or nu > infl['W'] or ns > infl['R']:
+                    fails.append(('viol', 'q_waiters reports %d on cv_unique / %d on cv_shared at t=%d but only %d writers / %d readers are inside lock()' % (nu, ns, now, infl['W'], infl['R'])))
+            elif ret < 0 or ret > infl['W'] + infl['R']:
+                fails.append(('viol', 'rw_waiters reports %d at t=%d but only %d threads are inside lock()' % (ret, now, infl['W'] + infl['R'])))
         elif name in ('rw_state', 'q_state') and a and 0 <= a[0] < len(decls) and kinds[a[0]] == ('rwlock' if name == 'rw_state' else 'qrwlock'):
             hs = holders[a[0]]
             exp = -1 if any(x[1] == 'W' for x in hs) else len(hs)
@@ -369,7 +568,12 @@ class Check(DiffCheck):
     model_module = 'C06_model'
     rule = ('P cases (E2): corpus (scenario programs incl. the single-vCPU witnesses); random reader/writer programs of 2-6 threads over 1-2 '
             'rwlock or qrwlock objects: lock sections (mode R/W, rarely invalid; timeout from {inf,0,h/2,h,3h/2,2h,3h,10h} around the hold time h), '
-            'holds by usleep/yield, nested read locks, try_lock (qrwlock), state probes, interrupts aimed at the other threads. '
+            'holds by usleep/yield, nested read locks, try_lock (qrwlock), state probes, interrupts aimed at the other threads; '
+            'structured programs for the BLOCKING path (3 in 4 on qrwlock: do_lock slow path, cv_unique/cv_shared, try_wake): a conductor going '
+            'through 2-4 sections with unlock followed by the next lock without a yield (downgrade / upgrade / re-take), waiters of both modes whose '
+            'deadlines fall inside a later hold, on an unlock instant or never, interrupts at parked waiters, probes of the state word and of the '
+            'cv queues (q_waiters/rw_waiters); crowds of 3-6 waiters on both cvs behind a writer. '
+            'Q cases (E3): exhaustive schedule prefixes + random bursty schedules of try_lock/unlock scripts over the atomic steps of lock_state/spin. '
             'non-trivial = a reader and a writer section on the same lock in different threads')
     assumptions = ['sequential consistency', 'clients unlock only what they hold', 'fewer than 2^63-2 simultaneous read holds (int64 state)',
                    'mtx (photon::mutex) provides mutual exclusion (property C01)']
@@ -383,7 +587,7 @@ class Check(DiffCheck):
         self._last = None
 
     def build_impl(self):
-        e2 = e2lib.build_impl(self.id, ['harness/C06/ops_rw.cpp'], out=os.path.join(BUILD, 'bin', 'C06_e2'))
+        e2 = e2lib.build_impl(self.id, ['harness/C06/ops_rw.cpp', 'harness/C06/ops_qrw.cpp'], out=os.path.join(BUILD, 'bin', 'C06_e2'))
         e3, log = cxx_build(self.id, ['harness/C06/qrw_e3.cpp'], libphoton=True, out=os.path.join(BUILD, 'bin', 'C06_e3'))
         if not e3: raise RuntimeError(log[-3000:])
         disp = os.path.join(BUILD, 'bin', 'C06_impl')
@@ -400,6 +604,9 @@ class Check(DiffCheck):
         nprog = 400 if tier == 'quick' else 8000
         for i in range(nprog):
             cs.append(gen_prog(rng, big=(i % 10 == 9)))
+        # the blocking path of qrwlock (and, 1 in 4, of rwlock): structured downgrade / re-take programs and crowds on both cvs
+        for i in range(360 if tier == 'quick' else 6000):
+            cs.append(gen_scn(rng) if i % 4 else gen_crowd(rng))
         cs += gen_q_exhaustive(tier)
         for i in range(1500 if tier == 'quick' else 40000):
             cs.append(gen_q_random(rng))
@@ -429,7 +636,8 @@ class Check(DiffCheck):
         decls, th = e2lib.parse_case(case)
         ops = [o[0] for t in th for o in t]
         kind = 'q' if any(d[0] == 'qrwlock' for d in decls) and not any(d[0] == 'rwlock' for d in decls) else 'rw' if not any(d[0] == 'qrwlock' for d in decls) else 'mix'
-        return 'P:%s:%dthr:%s' % (kind, len(th), '+'.join(x for x in ('interrupt', 'q_try') if x in ops) or 'plain')
+        if 'q_waiters' in ops or 'rw_waiters' in ops: ops.append('waiters')
+        return 'P:%s:%dthr:%s' % (kind, len(th), '+'.join(x for x in ('interrupt', 'q_try', 'waiters') if x in ops) or 'plain')
 
     def oracle(self, case, out):
         if case.startswith('Q'): return analyse_q(case, out)
